@@ -602,6 +602,11 @@ def run(case):
   seed = case['seed']
   tmp = tempfile.mkdtemp(prefix='c08-')
   conns = []
+  # the module-level default preprocessors are shared by every dataset of the process: they must be empty.
+  # (If an implementation grew them, say so and empty them again, or every later case would inherit the chains.)
+  defaults_clean = fdm.NoOpClientPreprocessor._fns == () and cdm.NoOpBatchPreprocessor._fns == ()
+  fdm.NoOpClientPreprocessor._fns = ()
+  cdm.NoOpBatchPreprocessor._fns = ()
   try:
     path = os.path.join(tmp, 'fd.sqlite')
     owned = {i: _examples(rows, wk) for i, rows in ds}       # the caller's data: must stay as it is
@@ -676,8 +681,10 @@ def run(case):
             'caller_intact': bool(intact and _snapshot(owned) == snap and all_ids_set == set(ids) and
                                   list(owned) == ids and all(list(e) == list(_examples([], wk)) for e in owned.values())),
             'kept_intact': all((_dsobs(kept[p]) if ids else None) == kept_before[p] for p in PIPES),
-            'defaults_intact': fdm.NoOpClientPreprocessor._fns == () and cdm.NoOpBatchPreprocessor._fns == ()}
+            'defaults_intact': defaults_clean and fdm.NoOpClientPreprocessor._fns == () and cdm.NoOpBatchPreprocessor._fns == ()}
   finally:
+    fdm.NoOpClientPreprocessor._fns = ()
+    cdm.NoOpBatchPreprocessor._fns = ()
     for c in conns:
       try:
         c.close()
@@ -821,8 +828,8 @@ def oracle(case, obs):
       bad('shuffled-pass', f'{where}: a pass of shuffled_clients() does not visit every client of the view exactly once')
     it = o.get('inter')
     if it is not None:
-      plain = {'clients': o['clients'], 'ids': [o['ids'][1], 'D'] if o['ids'][0] == 'V' else o['ids'],
-               'sizes': [o['sizes'][1], 'D'] if o['sizes'][0] == 'V' else o['sizes'],
+      plain = {'clients': o['clients'], 'ids': [o['ids'][1], 'D'] if o['ids'][0] == 'V' else [[], 'raised ' + str(o['ids'])],
+               'sizes': [o['sizes'][1], 'D'] if o['sizes'][0] == 'V' else [[], 'raised ' + str(o['sizes'])],
                'shuffled': [sh[0][:n], sh[1]]}
       for path in ('clients', 'ids', 'sizes', 'shuffled'):
         same = it[path][:2] == plain[path]
